@@ -2,7 +2,7 @@
 From Coq Require Import Sorting.Permutation.
 From CKC Require Import Base.Prelude Base.Reflect Base.SortN Spec.Layout Spec.Poker.
 From CKC Require Import Model.Card Model.Hands Model.Five Model.HandRank.
-From CKC Require Import Proofs.CardFacts Proofs.SortFacts Proofs.ValidFacts Proofs.FiveFacts Proofs.C01 Proofs.C02.
+From CKC Require Import Proofs.CardFacts Proofs.SortFacts Proofs.ValidFacts Proofs.FiveFacts Proofs.C01 Proofs.TableFacts.
 From CKC Require Import Gen.Consts.
 Open Scope N_scope.
 
@@ -26,7 +26,7 @@ Proof.
   - intros Hv. pose proof (proj1 (is_valid_spec ws) Hv) as [HR HN].
     destruct Hn as [->|Hn].
     + destruct (value_ok chk ws (conj HL (conj HR HN))) as (A & _ & _ & B & _ & C). eexists. repeat split; eauto; apply C.
-    + destruct (value_n_ok chk n ws Hn (conj HL (conj HR HN))) as (A & _ & _ & B & C). eexists. repeat split; eauto; apply C.
+    + destruct (value_table_ok chk n ws Hn (conj HL (conj HR HN))) as (A & _ & _ & B & C). eexists. repeat split; eauto; apply C.
 Qed.
 
 Lemma validated_zero_iff chk n ws :
